@@ -148,6 +148,8 @@ fn make_case(ki: usize, position: usize, rot: usize, bad: &[Tok], label: String)
         } else {
             vec![("f".into(), r.text.clone())]
         },
+        // (see check_case: in some cases a file that collects a diagnostic and then fails fatally
+        // is parsed first)
         expect: json!({
             "siblings": siblings,
             "extent": [r.start(bad_first), r.end(bad_last)],
@@ -158,6 +160,12 @@ fn make_case(ki: usize, position: usize, rot: usize, bad: &[Tok], label: String)
 
 pub fn check_case(case: &Case) -> CheckResult {
     let mut r = CheckResult::default();
+    // every third case: another parser of this thread first meets a file that collects a
+    // recovered-error diagnostic and then fails fatally (whatever it leaves behind must not show
+    // up in this case's files)
+    if crate::report::fnv(&case.files[0].1) % 3 == 0 {
+        let _ = run_files(&[("zz-broken".to_string(), "package z; interface Z { int ; void f() = 99999999999; }\n#".to_string())]);
+    }
     let obs = match run_files(&case.files) {
         Ok(o) => o,
         Err(p) => {
